@@ -2,8 +2,15 @@
 DESIGN.md section 5/C04 "value glue").  Independent reference encoder/parser of the stream wire
 format written from the NxScope protocol description.
 
+The table `STD` below is written by hand from the NxScope documentation (type id -> struct letter = width and
+signedness, bytes per value, fraction bits); nothing in this module reads nxslib's own type table
+(`iparse.dsfmt_get`), so the reference parsing and the value judgement stay put when that table is edited.
+
 Model syntax (see lean/NxsModel/Driver/Stream.lean):
-  layout : `dtype:vdim:mlen,…`           user : `ty/dtype/n.code+n.code;…`
+  layout : `dtype:vdim:mlen[:x],…`       user : `ty/dtype/n.code+n.code;…`
+           x (optional, ignored by the model — the decoder never reads these fields) tells `real_device` what
+           else to put into the real device object: bit 0 critical type bit (0x80), bit 1 `en`, bits 2-3 the
+           reserved type bits (0x20, 0x40), bits 6.. `div`; of channel 0 also bits 4-5 = device flags
   sample : `chan,dtype,vdim,mlen,[v;v],[m;m]`
   values : i:<int>  f:<hex8>  d:<hex16>  x:<raw>:<frac>  t:<hex>  t~<len>  b:<hex>  o:<0|1>
 """
@@ -29,8 +36,19 @@ def hexs(b):
 
 # ---- textual forms ----------------------------------------------------------------------------
 
-def layout_str(layout):
-    return ",".join(f"{t}:{v}:{m}" for t, v, m in layout) or "-"
+def layout_str(layout, xs=None):
+    if xs is None:
+        return ",".join(f"{t}:{v}:{m}" for t, v, m in layout) or "-"
+    return ",".join(f"{t}:{v}:{m}:{x}" for (t, v, m), x in zip(layout, xs)) or "-"
+
+
+def parse_layout(s):
+    """-> ([(ty, vdim, mlen)], [x] or None)"""
+    if s == "-":
+        return [], None
+    rows = [tuple(int(x) for x in c.split(":")) for c in s.split(",")]
+    xs = [r[3] for r in rows] if all(len(r) == 4 for r in rows) else None
+    return [r[:3] for r in rows], xs
 
 
 def user_str(user):
@@ -60,10 +78,16 @@ def user_atoms(items):
 
 # ---- real nxslib objects ------------------------------------------------------------------------
 
-def real_device(layout):
+def real_device(layout, xs=None):
     from nxslib.dev import Device, DeviceChannel
-    chans = [DeviceChannel(i, t, v, "c", mlen=m) for i, (t, v, m) in enumerate(layout)]
-    return Device(len(chans), 0b11, 0, chans)
+    if xs is None:
+        chans = [DeviceChannel(i, t, v, "c", mlen=m) for i, (t, v, m) in enumerate(layout)]
+        return Device(len(chans), 0b11, 0, chans)
+    chans = []
+    for i, ((t, v, m), x) in enumerate(zip(layout, xs)):
+        tb = (t & 0x1F) | (0x80 if x & 1 else 0) | (0x20 if x & 4 else 0) | (0x40 if x & 8 else 0)
+        chans.append(DeviceChannel(i, tb, v, f"c{i}", en=bool(x & 2), div=(x >> 6) & 0xFF, mlen=m))
+    return Device(len(chans), (xs[0] >> 4) & 3 if xs else 0, 0, chans)
 
 
 def real_user(user):
@@ -198,8 +222,10 @@ def canon_value(pyv, code, raw, frac, as_text):
             if type(pyv) is float and pyv == float(Fraction(rawint, 2 ** frac)):
                 return f"x:{rawint}:{frac}"
             return f"x!:{pyv!r}"
-        if type(pyv) is int:
-            return f"i:{pyv}"
+        # integers exactly: a Python int equal to the raw value as THIS module's table reads it from the wire
+        # (width and signedness from `STD` / the user format, never from nxslib's table)
+        if type(pyv) is int and pyv == rawint:
+            return f"i:{rawint}"
         return f"i!:{type(pyv).__name__}:{pyv!r}"
     if code in "fd":
         n = 4 if code == "f" else 8
@@ -211,9 +237,9 @@ def canon_value(pyv, code, raw, frac, as_text):
             return f"{code}:" + format(int.from_bytes(raw, "little"), f"0{2 * n}x")
         return f"{code}!:{pyv!r}"
     if code == "?":
-        return f"o:{int(bool(pyv))}" if type(pyv) is bool else f"o!:{pyv!r}"
+        return f"o:{int(pyv)}" if type(pyv) is bool and pyv == (raw != bytes(1)) else f"o!:{pyv!r}"
     if code in "cs":
-        return "b:" + hexs(pyv) if isinstance(pyv, bytes) else f"b!:{pyv!r}"
+        return "b:" + hexs(raw) if type(pyv) is bytes and pyv == raw else f"b!:{pyv!r}"
     return "?"
 
 
@@ -278,3 +304,31 @@ def real_samples(samples_str):
         c, dt, vd, ml, data, meta = parse_sample(s)
         out.append(DParseStreamData(c, dt, vd, ml, tuple(py_value(v) for v in data), tuple(meta)))
     return out
+
+
+# ---- reporting -------------------------------------------------------------------------------------------------------------
+
+def first_difference(want, got):
+    """where two canonical decode lines (`ok <flags> <sample>|<sample>…`) first differ: a short human-readable note"""
+    w, g = want.split(" "), got.split(" ")
+    if len(w) < 3 or len(g) < 3 or w[0] != "ok" or g[0] != "ok":
+        return f"expected {want[:120]!r}, observed {got[:120]!r}"
+    if w[1] != g[1]:
+        return f"flags byte: expected {w[1]}, observed {g[1]}"
+    ws, gs = w[2].split("|"), g[2].split("|")
+    for k, (a, b) in enumerate(zip(ws, gs)):
+        if a != b:
+            try:
+                pa, pb = parse_sample(a), parse_sample(b)
+                for name, x, y in zip(("chan", "dtype", "vdim", "mlen"), pa[:4], pb[:4]):
+                    if x != y:
+                        return f"sample #{k}: {name} expected {x}, observed {y}"
+                for j, (x, y) in enumerate(zip(pa[4], pb[4])):
+                    if x != y:
+                        return f"sample #{k} (channel {pa[0]}), value #{j}: expected {x}, observed {y}"
+                if len(pa[4]) != len(pb[4]):
+                    return f"sample #{k} (channel {pa[0]}): {len(pa[4])} values expected, {len(pb[4])} observed"
+                return f"sample #{k} (channel {pa[0]}), metadata: expected {pa[5][:16]}, observed {pb[5][:16]}"
+            except Exception:
+                return f"sample #{k}: expected {a[:100]}, observed {b[:100]}"
+    return f"{len(ws)} samples expected, {len(gs)} observed"
